@@ -8,7 +8,7 @@ WT=/tmp/seed/wt; TGT=/tmp/seed/wt-target
 export CARGO_NET_OFFLINE=true CARGO_TARGET_DIR=$TGT
 git -C /repo worktree remove --force $WT 2>/dev/null; git -C /repo worktree add -q --detach $WT HEAD || exit 1
 only=${2:-}
-for d in /tmp/seed/out/*/; do
+for d in ${SEED_SRC:-/tmp/seed/out}/*/; do
   id=$(basename $d)
   for k in 1 2; do
     [ -f $d/patch$k.diff ] || continue
